@@ -4,6 +4,9 @@
 #[macro_use]
 mod engine;
 mod aut;
+mod crcref;
+mod frozen_common_inputs;
+mod refcodec;
 mod gen;
 mod oracle;
 mod props;
